@@ -146,6 +146,16 @@ def run(prop, cfg, tier, seed, replay):
             conf = conformance.check(prop, cfg, b["results"])
         if conf["mismatches"]:
             problems.append(f"trace conformance: {len(conf['mismatches'])} trace(s) of the real client are not traces of the model, first: {conf['mismatches'][0][:300]}")
+    # the same for the Recovery view (T3, round 2): every client's recovery/close hook log must be a weak trace of the proved Recovery LTS
+    if ok and cfg.get("conformance_recovery") and batches:
+        import conformance_recovery
+        try:
+            rconf = conformance_recovery.check(batches[0]["results"], L.LEAN)
+        except Exception as e:  # the driver could not be run: a broken tie, not a pass
+            rconf = {"checked": 0, "mismatches": ["recovery replay could not be run: " + str(e)[:300]]}
+        conf["recovery"] = {"checked": rconf.get("checked", 0), "mismatches": len(rconf.get("mismatches", [])), "skipped": len(rconf.get("skipped", []))}
+        if rconf.get("mismatches"):
+            problems.append(f"recovery trace conformance: {len(rconf['mismatches'])} hook log(s) of the real client are not traces of the Recovery LTS, first: {rconf['mismatches'][0][:400]}")
     # search when something broke and no failing history is known: the thorough batch
     if problems and not fails and tier == "quick" and ok:
         b3 = run_batch(prop, "thorough", seed)
@@ -207,7 +217,8 @@ def run(prop, cfg, tier, seed, replay):
         "proof_failed": pr["failed"],
         "evaluations": len(res), "distinct_nontrivial": distinct,
         "rule": cfg["rule"], "samples": samples or ["(no scenario ran)"],
-        "traces_validated_against_impl": conf.get("checked", 0),
+        "traces_validated_against_impl": conf.get("checked", 0) + (conf.get("recovery") or {}).get("checked", 0),
+        "recovery_traces_replayed": (conf.get("recovery") or {}).get("checked", 0),
         "monitor_verdicts": nver, "failing_histories": len(fails), "scenario_distribution": dist,
         "conformance_mismatches": len(conf.get("mismatches", [])),
         "model_scripts": cfg.get("_model_oracle", {}),
